@@ -55,6 +55,7 @@ type uStep struct {
 	Len   int      `json:"len"`
 	Shape int      `json:"shape"`
 	Fail  bool     `json:"fail"`
+	Stale bool     `json:"stale"` // rrtp: through the reader the stream had before it was unbound (a read that was in flight)
 	Kind  string   `json:"kind"`
 	Ms    int      `json:"ms"`
 	Nums  []uint16 `json:"nums"`
@@ -815,7 +816,8 @@ func uRunX(t *testing.T, sc *uScript, out *vfWriter, scribble, quiet bool, rb *u
 	var rtcpR interceptor.RTCPReader
 	local := map[uint32]*uBound{}
 	remote := map[uint32]*uBound{}
-	var smu sync.Mutex // protects the harness's own tables when steps run concurrently
+	staleRemote := map[uint32]*uBound{} // readers of remote streams that have been unbound
+	var smu sync.Mutex                  // protects the harness's own tables when steps run concurrently
 	getLocal := func(s uint32) *uBound {
 		smu.Lock()
 		defer smu.Unlock()
@@ -922,6 +924,7 @@ func uRunX(t *testing.T, sc *uScript, out *vfWriter, scribble, quiet bool, rb *u
 			if b := getRemote(st.S); b != nil {
 				smu.Lock()
 				delete(remote, st.S)
+				staleRemote[st.S] = b
 				smu.Unlock()
 				blocked, pan = uGuard(limit, func() { chain.UnbindRemoteStream(b.info) })
 			} else {
@@ -1056,6 +1059,11 @@ func uRunX(t *testing.T, sc *uScript, out *vfWriter, scribble, quiet bool, rb *u
 			ev["n"], ev["err"], ev["wire"] = n, uErrClass(werr), w
 		case "rrtp":
 			b := getRemote(st.S)
+			if b == nil && st.Stale {
+				smu.Lock()
+				b = staleRemote[st.S]
+				smu.Unlock()
+			}
 			if b == nil || b.reader == nil {
 				ev["skipped"] = true
 
